@@ -678,10 +678,11 @@ class Folder:
     STR_METHODS = {"lower", "upper", "strip", "lstrip", "rstrip", "replace", "startswith", "endswith", "split",
                    "capitalize", "title", "format"}
 
-    def __init__(self, cls):
+    def __init__(self, cls, consts=None):
         self.cls = cls
         self.members = enum_members(cls)
         self.steps = 0
+        self.consts = consts or {}          # module-level literal tables the methods may look up
 
     def method(self, name):
         for st in self.cls.body:
@@ -756,6 +757,8 @@ class Folder:
                 return env[e.id]
             if e.id in ("None", "True", "False"):
                 return {"None": None, "True": True, "False": False}[e.id]
+            if e.id in self.consts:
+                return self.ev(self.consts[e.id], {})
             raise Unfoldable(e.id)
         if isinstance(e, ast.Attribute):
             # <anything>.<Enum>.<Member> or cls.<Member>
@@ -840,6 +843,10 @@ class Folder:
                     return base[lo:hi]
                 raise Unfoldable(au.src(e))
             k = self.ev(e.slice, env)
+            if base == ("cls",) or (isinstance(e.value, ast.Name) and e.value.id == self.cls.name):
+                if isinstance(k, str) and k in self.members:
+                    return self.members[k]          # Enum[name]
+                raise Raised(f"no member {k!r}")
             try:
                 return base[k]
             except (KeyError, IndexError, TypeError):
@@ -868,6 +875,12 @@ class Folder:
                 return int(v)
             raise Unfoldable(au.src(e))
         raise Unfoldable(au.src(e))
+
+
+def folder_for(repo, modname, qual):
+    """Folder of an enum class with the literal module-level tables of its module"""
+    from . import hc_flat
+    return Folder(repo.cls(modname, qual), hc_flat.module_constants(repo.module(modname)))
 
 
 # --------------------------------------------------------------------------- small evaluators
